@@ -173,7 +173,7 @@ def run_case(ctx, rng, index, casedir):
     viol = []
     outcomes = collections.Counter()
     big_case = rng.random() < 0.02  # regions selecting well over a thousand records
-    w = VC.build(rng, casedir, index, ctx.tier, nrec=rng.randint(1300, 2600) if big_case else rng.choice([1, 2, 4, rng.randint(5, 30)]),
+    w = VC.build(rng, casedir, index, ctx.tier, nrec=rng.choice([1024, 2048, 4096, 8192, rng.randint(1300, 2600), rng.randint(1300, 2600)]) if big_case else rng.choice([1, 2, 4, rng.randint(5, 30)]),
                  **({"size": "small"} if big_case else {}))
     o = VC.run_index(w, None if rng.random() < 0.7 else os.path.join(casedir, "elsewhere.gvi"))
     if not o.ok:
@@ -187,6 +187,10 @@ def run_case(ctx, rng, index, casedir):
         if len(conv_lines) != len(w.lines):
             conv_lines = None
     queries = make_regions(w, rng, sit)
+    if big_case:
+        # one region per contig covering all of it: selects every record (the exact, often round, record count)
+        allr = [(c, 0, max(n.end for n in w.coords.by_contig[c]) - 1) for c in w.coords.by_contig]
+        queries.append((["multi_region", "whole_graph"], allr))
     sigs = []
     fsig = stable_hash(w.lines)
     for k, (classes, regions) in enumerate(queries):
